@@ -333,6 +333,14 @@ func resultOutcomeH(r *validate.Result, withSchemata, withHash bool) Outcome {
 	if withSchemata {
 		o.Extra = schemataDigest(r, withHash)
 	}
+	// the data object the result says it was obtained from (Result.Data): that of this validation or none, never an earlier one's
+	if d := r.Data(); d != nil {
+		if b, err := json.Marshal(d); err == nil {
+			o.Extra += " data=" + trunc(string(b), 60)
+		} else {
+			o.Extra += fmt.Sprintf(" data=(%T)", d)
+		}
+	}
 	return o
 }
 
